@@ -281,6 +281,7 @@ func inject(w *world, cause string, peer *rawpeer.SIO, ss sio.ServerSocket) {
 	case "server-close":
 		w.srv.IO.Close()
 	case "tcp-cut":
+		w.px.RefuseNew(true) // the link is gone: no later connection (e.g. a websocket upgrade still being dialled) gets through
 		w.px.CutAll()
 		peer.C.Abort()
 	case "blackhole":
@@ -403,6 +404,11 @@ func runTrial(run *vk.Run, t trialSpec) {
 		case <-done:
 		case <-time.After(70 * time.Second):
 		}
+		if t.Cause == "tcp-cut" || t.Cause == "client-transport-close" {
+			// the upgrade goroutine may have opened its websocket after the fault was injected
+			w.px.CutAll()
+			peer.C.Abort()
+		}
 	case "two-namespaces":
 		if !connectAndWait(nil) {
 			return
@@ -420,7 +426,9 @@ func runTrial(run *vk.Run, t trialSpec) {
 	}
 	watchdog := pingI + pingT + 15*time.Second
 	if pingI > 5*time.Second {
-		watchdog = 20 * time.Second
+		// a server-initiated websocket close may spend up to 5 s in the close handshake and up to 15 s
+		// waiting for the library's goroutines before the session is removed
+		watchdog = 45 * time.Second
 	}
 	allowed := allowedFor(t.Cause)
 	if t.Phase == "before-connect" || t.Phase == "in-middleware" || t.Phase == "during-upgrade" {
@@ -473,6 +481,7 @@ func report(run *vk.Run, fields, wit map[string]any, res sweepResult, sessionGon
 	}
 	if sessionGone {
 		if res.sessions != 0 {
+			wit["stacks"] = vk.DumpGoroutines("c06-leftover-session")
 			add("leftover-session", fmt.Sprintf("%d Engine.IO session(s) still in the store", res.sessions))
 		}
 		serverClosed := res.probeStatus == 503 && strings.Contains(fmt.Sprint(fields["cause"], fields["causes"]), "server-close")
@@ -573,6 +582,17 @@ func main() {
 			}
 		}
 	}
+	if only := os.Getenv("C06_ONLY"); only != "" { // debugging aid: C06_ONLY=cause/phase/transport
+		var f []trialSpec
+		for _, sp := range specs {
+			if sp.id() == only {
+				for i := 0; i < 6; i++ {
+					f = append(f, sp)
+				}
+			}
+		}
+		specs = f
+	}
 	// trials are independent worlds: run them in parallel
 	sem := make(chan struct{}, 12)
 	var wg sync.WaitGroup
@@ -588,7 +608,7 @@ func main() {
 	wg.Wait()
 	run.Logf("%d cause x phase trials done, violations so far %d", len(specs), run.Violations())
 
-	if run.SubMode != "race" {
+	if run.SubMode != "race" && os.Getenv("C06_ONLY") == "" {
 		// byte-cut enumeration (sequential on shared worlds: the sweep inspects global server state)
 		stride := int64(run.Pick(37, 1))
 		var cwg sync.WaitGroup
@@ -672,7 +692,7 @@ func runMulti(run *vk.Run, causes []string) {
 	wg.Wait()
 	peer.C.Close()
 	allowed := allowedFor(append(causes, "client-transport-close")...)
-	res := w.sweep(0, sid, allowed, true, 20*time.Second)
+	res := w.sweep(0, sid, allowed, true, 45*time.Second)
 	id := "multi/" + strings.Join(causes, "+")
 	report(run, map[string]any{"cause": "multi", "phase": "connected-idle", "transport": "websocket", "causes": strings.Join(causes, "+")},
 		map[string]any{"trial": id, "seed": run.Seed()}, res, true)
